@@ -62,6 +62,38 @@ def main():
         # second UPDATE: criteria on b (read) and on a (written by the first flush: rbits |= wbits, dbval = value written)
         test('two flushes in one session: the second UPDATE checks the value the first one wrote',
              [[[[['a', 7]], [['id', 1], ['b', 3]]], [[['b', 8]], [['id', 1], ['a', 7], ['b', 3]]]], [True], False], two_flushes)
+        # outside a db_session (interactive mode): the rowcount test reads cache.db_session.optimistic although db_session is None
+        import pony
+        old_mode = pony.MODE
+        try:
+            pony.MODE = 'INTERACTIVE'
+            import sqlite3
+            p = P[1]; x = p.a
+            con = sqlite3.connect(os.path.join(tmp, 'fu.sqlite'), timeout=5)
+            con.execute('UPDATE P SET a = 500 WHERE id = 1'); con.commit(); con.close()
+            p.a = x + 1
+            try:
+                orm.commit(); got = 'committed'
+            except Exception as e:
+                got = type(e).__name__
+            try: orm.rollback()
+            except Exception: pass
+        finally:
+            pony.MODE = old_mode
+        out['tests'].append({'name': 'interactive mode (no db_session): a lost update is refused with OptimisticCheckError', 'got': got,
+                             'want': 'OptimisticCheckError', 'as_coded': 'AttributeError', 'finding': 'interactive-mode:AttributeError-instead-of-OptimisticCheckError'})
+        # DELETE carries no optimistic criteria (_save_deleted_): pinned behaviour, outside the statement ("an update of an object")
+        del S.TRACE[:]
+        with orm.db_session:
+            P(id=5, a=1, b=1)
+        with orm.db_session:
+            q = P[5]; y = q.a
+            con = sqlite3.connect(os.path.join(tmp, 'fu.sqlite'), timeout=5)
+            con.execute('UPDATE P SET a = 99 WHERE id = 5'); con.commit(); con.close()
+            q.delete()
+        dels = [sql.replace('\n', ' ') for _, sql in S.TRACE if sql.startswith('DELETE')]
+        out['tests'].append({'name': 'delete after read, concurrent update: DELETE carries only the pk and is applied (not an update: outside the statement)',
+                             'got': dels, 'want': ['DELETE FROM "P" WHERE "id" = 5']})
     except BaseException as e:
         import traceback
         out['tests'].append({'name': 'driver error', 'got': traceback.format_exc()[-2000:], 'want': None})
